@@ -478,7 +478,7 @@ func checkPushesNonNil(p *core.Prog, r *core.Result, decode *ssa.Function, unpic
 		return
 	}
 	n := 0
-	for _, c := range core.CallsTo(decode, push) {
+	for _, c := range decoderPushSites(p, decode, push) {
 		n++
 		arg := c.Common().Args[1]
 		construct := fmt.Sprintf("pickle.(*Decoder).decode#push-%d", n)
